@@ -19,6 +19,19 @@ class Raise(Exception):
         self.where = where
 
 
+class HeapLog(list):
+    """Executor heap log.  Entries identify containers by id(); every container that is
+    mentioned is kept alive for the life of the path, so that an id is never reused for
+    another container (which made fresh sets look like sets owned by an existing node)."""
+    def __init__(self):
+        super().__init__()
+        self.keepalive = []
+
+    def note(self, obj):
+        self.keepalive.append(obj)
+        return id(obj)
+
+
 class PathAbort(Exception):
     """The current path is assumed away (assumption violated / infeasible)."""
 
@@ -270,7 +283,7 @@ class Interp:
         self.contracts = contracts
         self.force_contract = set(force_contract)
         self.frames = []
-        self.heap_log = []
+        self.heap_log = HeapLog()
         self.ghost = {}
         self.module_cache = {}
         self.frame_counter = 0
@@ -410,6 +423,11 @@ class Interp:
             raise Unsupported(f"call depth exceeded at {fd.qualname}")
         if fd.unknown_decorators:
             raise Unsupported(f"decorator {fd.unknown_decorators} on {fd.qualname}")
+        if any(isinstance(x, (gmode.StarArgs, gmode.SList)) for x in args):
+            from . import gexec
+            r = gexec.helper_contract(self, fd, args, kwargs)
+            if r is not NotImplemented:
+                return r
         self.frame_counter += 1
         env = Env(fd.module, closure_env, fd, self.frame_counter)
         defenv = Env(fd.module)
@@ -522,13 +540,13 @@ class Interp:
         rhs = self.eval(st.value, env)
         if isinstance(st.op, ast.BitOr) and isinstance(cur, SSet) and isinstance(rhs, SSet):
             # set |= set updates the SAME set object in place
-            self.heap_log.append(("mutate-set", id(cur), "|=", self.where()))
+            self.heap_log.append(("mutate-set", self.heap_log.note(cur), "|=", self.where()))
             cur.term = sym.union(cur.term, rhs.term)
             self.assign(st.target, cur, env)
             return
         if isinstance(st.op, ast.Add) and isinstance(cur, list) and not isinstance(cur, GeneratorList):
             # list += iterable extends the SAME list object in place
-            self.heap_log.append(("mutate-list", id(cur), "+=", self.where()))
+            self.heap_log.append(("mutate-list", self.heap_log.note(cur), "+=", self.where()))
             cur.extend(self.bi.iterate(rhs))
             self.assign(st.target, cur, env)
             return
@@ -778,7 +796,7 @@ class Interp:
 
     def ex_List(self, node, env):
         v = self._elts(node.elts, env)
-        self.heap_log.append(("alloc-list", id(v), None, self.where()))
+        self.heap_log.append(("alloc-list", self.heap_log.note(v), None, self.where()))
         return v
 
     def _elts(self, elts, env):
@@ -863,7 +881,7 @@ class Interp:
 
     def ex_ListComp(self, node, env):
         v = self._comp(node, env, lambda e: self.eval(node.elt, e))
-        self.heap_log.append(("alloc-list", id(v), None, self.where()))
+        self.heap_log.append(("alloc-list", self.heap_log.note(v), None, self.where()))
         return v
 
 
@@ -951,5 +969,5 @@ class Interp:
         cur_self = self.frames[-1].vars.get("self") if self.frames else None
         fname = self.frames[-1].funcdef.name if self.frames and self.frames[-1].funcdef else ""
         self.heap_log.append(("store", o, attr, self.where(),
-                              bool(o.in_init and cur_self is o and fname == "__init__"), id(v)))
+                              bool(o.in_init and cur_self is o and fname == "__init__"), self.heap_log.note(v)))
         o.fields[attr] = v
